@@ -49,7 +49,7 @@ CHECKS = {
             "6/C10"),
     "C11": ("persist", "exploration",
             "seeded create/update/remove histories over up to 6 channels and a shared peer pool on both stores vs. a reference set of live channels, after every step",
-            "After every step of a history the restorer's four views (RestoreChannel, RestorePeer, ActivePeers, RestoreAll) and the raw key set are compared with a reference set of live channels with snapshots; operations on one channel must leave every other channel's restored value byte-identical. Later additions: peers reachable under several backend ids; removals and creations whose first or second write fails (the half-removed/half-created channel is tolerated, every other channel must be unaffected). Wave 7: a second pool of wire identities whose bytes spell fragments of the store's key syntax (":channel:", "Chan:", ...), two of them sharing the prefix up to the separator; forced/progressed states with the current, a lower or a much higher version.",
+            "After every step of a history the restorer's four views (RestoreChannel, RestorePeer, ActivePeers, RestoreAll) and the raw key set are compared with a reference set of live channels with snapshots; operations on one channel must leave every other channel's restored value byte-identical. Later additions: peers reachable under several backend ids; removals and creations whose first or second write fails (the half-removed/half-created channel is tolerated, every other channel must be unaffected). Wave 7: a second pool of wire identities whose bytes spell fragments of the store's key syntax (':channel:', 'Chan:', ...), two of them sharing the prefix up to the separator; forced/progressed states with the current, a lower or a much higher version.",
             "No crashes here (C10 covers them). LevelDB in 5% of runs.",
             "6/C11"),
     "C08": ("world", "exploration",
